@@ -44,8 +44,9 @@ NOTES["C02"] = ("the recursive runner decomposed into steps on its real body: ev
                 "the composition of the steps into whole trees of arbitrary shape and depth (induction over the tree is prose, not a solver query); more than 3 postponed commands; the error path of a system removing its own storage component; where the runner polls removals/despawns and collects garbage")
 NOTES["C09"] = ("the ordering ingredients on the real code: a command for an idle system runs in-line inside the runner call (setup, system, cleanup, then the callback's deferred commands: callbacks.*); a command for an executing system is appended behind earlier postponed ones and nothing of it runs now; when a system finishes, its postponed commands are replayed at once, in order, before the runner returns to whatever was queued after it, while other systems' postponed commands keep their order; postponement buffer FIFO",
                 "the total order over all runs of a tree = these steps composed with Bevy's per-command flush (environment contract E1, checked by the conformance run, not by the solver); removal/despawn reactions' polling points")
+NOTES["C15"] = ("ReactCommands::once on the real code with the revoke recorded: the registration and the wrapper's storage are queued, the token names the wrapper's own entity and all of the bundle's triggers; the wrapper's first invocation runs the user's reactor exactly once, despawns exactly its own entity and revokes exactly its own token; any number (0-2) of later invocations run nothing; an empty bundle registers nothing and hands the reactor to the collector at once; every registration kernel stores exactly one entry under the right kind and type; what the revoke removes: C06; collection: C07/C10",
+                "the three pieces joined through the runner in one tree (the wrapper reached by its second trigger while the revoke is still queued is covered only as 'a later invocation does nothing'); revocation before any trigger fires is the C06 obligations plus dispatch exactness (C01), not a separate query")
 NOT_APPLICABLE = {
-    "C15": "the once-wrapper is a closure over World that runs the system, despawns itself and revokes through world.react(), i.e. through flush and the recursive runner (DESIGN.md section 7)",
 }
 
 
